@@ -45,11 +45,26 @@ type Pipe struct {
 	Seek     int         `json:"seek,omitempty"`   // readseeker: >0: seek into the stream first (selector)
 	Delta    int         `json:"delta,omitempty"`  // inconsistent: index size = true size + Delta
 	Fixed    int         `json:"fixed,omitempty"`  // >0: every chunk has this length (fixed-size chunking / runs of max-size chunks)
+	Tree     string      `json:"tree,omitempty"`   // untarindex: "" files plus a directory and a link | meta: directories, links, empty files only | mixed
+	Drain    string      `json:"drain,omitempty"`  // readseeker: how the reader is drained: "" explicit Read calls | io.Copy | io.CopyBuffer
 }
 
-func genPipe(t *rapid.T, inconsistent bool) *Pipe {
-	p := &Pipe{}
-	p.Consumer = rapid.SampledFrom([]string{cAssemble, cReadSeeker, cUnTarIndex, cSparse}).Draw(t, "consumer")
+const (
+	treeMeta  = "meta"
+	treeMixed = "mixed"
+
+	drainRead       = "read"
+	drainCopy       = "io.Copy"
+	drainCopyBuffer = "io.CopyBuffer"
+)
+
+func genPipe(t *rapid.T, inconsistent bool) *Pipe { return genPipeFor(t, "", inconsistent) }
+
+func genPipeFor(t *rapid.T, consumer string, inconsistent bool) *Pipe {
+	p := &Pipe{Consumer: consumer}
+	if consumer == "" {
+		p.Consumer = rapid.SampledFrom([]string{cAssemble, cReadSeeker, cUnTarIndex, cSparse}).Draw(t, "consumer")
+	}
 	n := rapid.IntRange(1, 8).Draw(t, "nchunks")
 	for i := 0; i < n; i++ {
 		limit := 3000
@@ -59,9 +74,19 @@ func genPipe(t *rapid.T, inconsistent bool) *Pipe {
 		p.Chunks = append(p.Chunks, genChunkSpec(t, "pc", limit))
 	}
 	if p.Consumer == cUnTarIndex {
-		for i, k := 0, rapid.IntRange(1, 30).Draw(t, "ntiles"); i < k; i++ {
-			p.Tiling = append(p.Tiling, rapid.IntRange(1, 700).Draw(t, "tile"))
+		// archives with long stretches without payload (directories, links, empty files) cut
+		// into small chunks: many chunks then hold nothing but metadata
+		p.Tree = rapid.SampledFrom([]string{"", "", treeMeta, treeMixed}).Draw(t, "tree")
+		maxTile := 700
+		if p.Tree != "" {
+			maxTile = rapid.SampledFrom([]int{40, 100, 300}).Draw(t, "maxtile")
 		}
+		for i, k := 0, rapid.IntRange(1, 30).Draw(t, "ntiles"); i < k; i++ {
+			p.Tiling = append(p.Tiling, rapid.IntRange(1, maxTile).Draw(t, "tile"))
+		}
+	}
+	if p.Consumer == cReadSeeker {
+		p.Drain = rapid.SampledFrom([]string{drainRead, drainCopy, drainCopy, drainCopyBuffer}).Draw(t, "drain")
 	}
 	if p.Consumer != cUnTarIndex && rapid.IntRange(0, 2).Draw(t, "fixedsize") == 0 {
 		// equal-size neighbours: what a reader that keeps a decoded chunk around can confuse
@@ -73,7 +98,7 @@ func genPipe(t *rapid.T, inconsistent bool) *Pipe {
 			p.Chunks = append(p.Chunks, genChunkSpec(t, "pc", 3000))
 		}
 	}
-	p.Victim = rapid.IntRange(0, 63).Draw(t, "victim")
+	p.Victim = rapid.IntRange(0, 1<<16).Draw(t, "victim")
 	p.N = rapid.IntRange(1, 4).Draw(t, "n")
 	if p.Consumer == cAssemble {
 		p.Pre = rapid.SampledFrom([]string{"", "", "junk", "partial"}).Draw(t, "pre")
@@ -109,6 +134,8 @@ type pipeData struct {
 	tree   *catar.Node // untarindex
 	victim int
 	skewed bool // the index was made inconsistent
+	// untarindex: the victim chunk holds no byte of any file's payload
+	victimMetaOnly bool
 
 	// filled by the consumer: after a refused read the same reader/handle was asked again
 	retried         bool
@@ -117,23 +144,75 @@ type pipeData struct {
 
 func realID(b []byte) desync.ChunkID { return desync.ChunkID(sha512.Sum512_256(b)) }
 
-func buildTree(files [][]byte) *catar.Node {
+func buildTree(files [][]byte, kind string) *catar.Node {
 	const mtime = 1_600_000_000_000_000_000
 	const sec = 1_000_000_000
 	root := &catar.Node{Mode: catar.S_IFDIR | 0o755, MTimeNs: mtime, UID: 1000, GID: 100}
 	sub := &catar.Node{Name: "dir", Mode: catar.S_IFDIR | 0o750, MTimeNs: mtime + 7*sec, UID: 1001, GID: 101}
-	for i, f := range files {
-		n := &catar.Node{Name: fmt.Sprintf("file%02d", i), Mode: catar.S_IFREG | 0o644, MTimeNs: mtime + uint64(i+10)*sec, UID: uint64(2000 + i), GID: 50, Data: f}
-		if i%3 == 2 {
-			sub.Children = append(sub.Children, n)
-		} else {
-			root.Children = append(root.Children, n)
+	if kind != treeMeta {
+		for i, f := range files {
+			n := &catar.Node{Name: fmt.Sprintf("file%02d", i), Mode: catar.S_IFREG | 0o644, MTimeNs: mtime + uint64(i+10)*sec, UID: uint64(2000 + i), GID: 50, Data: f}
+			if i%3 == 2 {
+				sub.Children = append(sub.Children, n)
+			} else {
+				root.Children = append(root.Children, n)
+			}
 		}
 	}
 	root.Children = append(root.Children, sub)
-	root.Children = append(root.Children, &catar.Node{Name: "link", Mode: catar.S_IFLNK | 0o777, MTimeNs: mtime + 3*sec, UID: 3, GID: 4, Target: "file00"})
-	sort.SliceStable(root.Children, func(i, j int) bool { return root.Children[i].Name < root.Children[j].Name })
+	target := "file00"
+	if kind == treeMeta {
+		target = "dir"
+	}
+	root.Children = append(root.Children, &catar.Node{Name: "link", Mode: catar.S_IFLNK | 0o777, MTimeNs: mtime + 3*sec, UID: 3, GID: 4, Target: target})
+	if kind != "" {
+		// a long stretch without any payload: nested directories, links and empty files
+		// (their number follows the number of chunk specs of the case)
+		k := 4 + 3*len(files)
+		parent := root
+		for i := 0; i < k; i++ {
+			t := mtime + uint64(100+i)*sec
+			switch i % 4 {
+			case 0:
+				d := &catar.Node{Name: fmt.Sprintf("m%02d-dir", i), Mode: catar.S_IFDIR | 0o711, MTimeNs: t, UID: 7, GID: 8}
+				parent.Children = append(parent.Children, d)
+				if i%8 == 0 {
+					parent = d // go one level down
+				}
+			case 1:
+				parent.Children = append(parent.Children, &catar.Node{Name: fmt.Sprintf("m%02d-link", i), Mode: catar.S_IFLNK | 0o777, MTimeNs: t, UID: 9, GID: 9, Target: fmt.Sprintf("../somewhere/else/%d", i)})
+			case 2:
+				parent.Children = append(parent.Children, &catar.Node{Name: fmt.Sprintf("m%02d-empty", i), Mode: catar.S_IFREG | 0o600, MTimeNs: t, UID: 11, GID: 12})
+			default:
+				parent.Children = append(parent.Children, &catar.Node{Name: fmt.Sprintf("m%02d-edir", i), Mode: catar.S_IFDIR | 0o700, MTimeNs: t, UID: 13, GID: 14})
+			}
+		}
+	}
+	sortTree(root)
 	return root
+}
+
+// sortTree puts the children of every directory into name order (what casync writes).
+func sortTree(n *catar.Node) {
+	sort.SliceStable(n.Children, func(i, j int) bool { return n.Children[i].Name < n.Children[j].Name })
+	for _, c := range n.Children {
+		sortTree(c)
+	}
+}
+
+// invertPayloads returns a copy of the tree with every file's bytes inverted. The two
+// encodings differ exactly in the payload bytes.
+func invertPayloads(n *catar.Node) *catar.Node {
+	c := *n
+	c.Data = flipped(n.Data)
+	if len(n.Data) == 0 {
+		c.Data = nil
+	}
+	c.Children = nil
+	for _, ch := range n.Children {
+		c.Children = append(c.Children, invertPayloads(ch))
+	}
+	return &c
 }
 
 func buildPipe(p *Pipe) *pipeData {
@@ -160,7 +239,7 @@ func buildPipe(p *Pipe) *pipeData {
 	}
 	var pieces [][]byte
 	if p.Consumer == cUnTarIndex {
-		pd.tree = buildTree(contents)
+		pd.tree = buildTree(contents, p.Tree)
 		pd.blob = catar.Encode(pd.tree, catar.EncodeOptions{})
 		rest := pd.blob
 		for _, l := range p.Tiling {
@@ -174,8 +253,12 @@ func buildPipe(p *Pipe) *pipeData {
 			pieces = append(pieces, rest[:l])
 			rest = rest[l:]
 		}
-		for len(rest) > 0 {
+		for i := 0; len(rest) > 0; i++ {
 			l := min(4096, len(rest))
+			if p.Tree != "" && len(p.Tiling) > 0 && len(pieces) < 120 {
+				// small chunks all the way through
+				l = min(max(p.Tiling[i%len(p.Tiling)], 1), len(rest))
+			}
 			pieces = append(pieces, rest[:l])
 			rest = rest[l:]
 		}
@@ -203,6 +286,14 @@ func buildPipe(p *Pipe) *pipeData {
 		v = (v + 1) % len(pieces)
 	}
 	pd.victim = v
+	if pd.tree != nil {
+		other := catar.Encode(invertPayloads(pd.tree), catar.EncodeOptions{})
+		start := 0
+		for _, pc := range pieces[:v] {
+			start += len(pc)
+		}
+		pd.victimMetaOnly = len(other) == len(pd.blob) && bytes.Equal(other[start:start+len(pieces[v])], pieces[v])
+	}
 	var pos, maxLen uint64
 	for _, pc := range pieces {
 		it := item{id: realID(pc), data: pc}
@@ -461,7 +552,18 @@ func consumeNow(p *Pipe, pd *pipeData, store desync.Store, rs *desync.IndexPos) 
 			want = pd.blob[off:]
 		}
 		var buf bytes.Buffer
-		if _, err := io.Copy(&buf, onlyReader{rs}); err != nil {
+		var err error
+		switch p.Drain {
+		case drainCopy:
+			// what `desync cat` does: io.Copy picks WriteTo of the source or ReadFrom of the
+			// destination when they exist
+			_, err = io.Copy(&buf, rs)
+		case drainCopyBuffer:
+			_, err = io.CopyBuffer(onlyWriter{&buf}, rs, make([]byte, 1+p.N*1000))
+		default:
+			_, err = io.Copy(onlyWriter{&buf}, onlyReader{rs})
+		}
+		if err != nil {
 			if bad := pd.retryAfterRefusal(func(b []byte, off int64) (int, error) {
 				if _, serr := rs.Seek(off, io.SeekStart); serr != nil {
 					return 0, serr
@@ -587,6 +689,11 @@ func (pd *pipeData) retryAfterRefusal(readAt func(b []byte, off int64) (int, err
 	}
 	return ""
 }
+
+// onlyWriter hides every method but Write.
+type onlyWriter struct{ w io.Writer }
+
+func (o onlyWriter) Write(p []byte) (int, error) { return o.w.Write(p) }
 
 // onlyReader hides every method but Read; a reader that keeps answering (0, nil) is cut off.
 type onlyReader struct{ r io.Reader }
@@ -766,6 +873,25 @@ func runPipeline(c Case) (o hx.Outcome) {
 		}
 	}
 	desc["fixed"] = p.Fixed
+	if p.Consumer == cReadSeeker {
+		drain := p.Drain
+		if drain != drainCopy && drain != drainCopyBuffer {
+			drain = drainRead
+		}
+		desc["drain"] = drain
+		if effective && fetched {
+			o.Class("consumer:readseeker:" + drain)
+		}
+	}
+	if p.Consumer == cUnTarIndex {
+		desc["tree"] = p.Tree
+		if effective && fetched {
+			o.Class("consumer:untarindex:tree:" + map[string]string{"": "files", treeMeta: treeMeta, treeMixed: treeMixed}[p.Tree])
+			if pd.victimMetaOnly {
+				o.Class("consumer:untarindex:victim-chunk-metadata-only")
+			}
+		}
+	}
 	if effective {
 		o.Class("effective")
 		if fetched {
